@@ -200,7 +200,17 @@ fn supervisor(argv: &[String]) {
                 // a worker killed by the Rust runtime's own abort (allocation failure, stack overflow)
                 // while it executes the library is a verdict on the library - "aborts the process" -
                 // not a machinery problem; anything else is
-                if e.contains("memory allocation of") || e.contains("has overflowed its stack") {
+                // (only an allocation of a size no part of the harness ever asks for - 1 GiB or more -
+                // or a stack overflow: a small allocation failing under memory pressure is the
+                // machine's problem)
+                let huge_alloc = e
+                    .split("memory allocation of ")
+                    .nth(1)
+                    .and_then(|r| r.split(' ').next())
+                    .and_then(|n| n.parse::<u64>().ok())
+                    .map(|n| n >= 1 << 30)
+                    .unwrap_or(false);
+                if huge_alloc || e.contains("has overflowed its stack") {
                     part.violation(
                         "process:aborted",
                         format!("variant {} {}: the process running the connection was aborted: {}", vi, variants[vi], e.chars().rev().take(200).collect::<String>().chars().rev().collect::<String>()),
